@@ -226,6 +226,26 @@ def FieldDecl.resolve {μ κ α : Type} [DecidableEq μ] (mode : Option μ) (d :
   { name := d.name, required := d.req.holds mode, default := d.default, onError := d.onError, deps := d.deps,
     parse := d.parse }
 
+/-- the running options a parse is started with (`Cls.__from__(data, Options(...))`) that decide which
+fields are required and what an absent field receives -/
+structure RunOpts (μ α : Type) where
+  mode : Option μ := none
+  ignoreRequired : Bool := false
+  forceDefault : Option α := none          -- `Options(force_default=v)`; none = not given
+
+/-- `Options.__init__` (options.py:170-176): "force default implies ignore_required" -/
+def RunOpts.ignoresRequired {μ α : Type} (r : RunOpts μ α) : Bool := r.ignoreRequired || r.forceDefault.isSome
+
+/-- `is_required(options)` (field.py:805-814: `if options.ignore_required or not self.required: return
+False`) and `get_default(options)` (field.py:783-786: `options.force_default` wins over the field's own
+default) for the options of *this* parse.  Both are functions of the declaration and of the running
+options only — nothing a previous parse of the same class did may enter. -/
+def FieldDecl.resolveR {μ κ α : Type} [DecidableEq μ] (r : RunOpts μ α) (d : FieldDecl μ κ α) : Field κ α :=
+  { name := d.name,
+    required := !r.ignoresRequired && d.req.holds r.mode,
+    default := (match r.forceDefault with | some v => some v | none => d.default),
+    onError := d.onError, deps := d.deps, parse := d.parse }
+
 inductive FieldOut (α : Type) where
   | value (v : α) | unprovided | raise
   deriving DecidableEq, Repr
@@ -433,6 +453,25 @@ def parseDataDFG {κ α : Type} [DecidableEq κ] (fix : Bool) (inv : Policy) (fi
 def dfLoop {κ α : Type} [DecidableEq κ] (inv : Policy) := dfLoopG (κ := κ) (α := α) true inv
 def parseDataDF {κ α : Type} [DecidableEq κ] (inv : Policy) := parseDataDFG (κ := κ) (α := α) true inv
 
+/-! ### sequences of parses of one declared class -/
+
+/-- one parse of a declared class: running options, `invalid_values`, lookup strategy, data -/
+structure ParseStep (μ κ α : Type) where
+  run : RunOpts μ α
+  inv : Policy
+  dataFirst : Bool
+  data : List (κ × α)
+
+def parseStep {μ κ α : Type} [DecidableEq μ] [DecidableEq κ] (decls : List (FieldDecl μ κ α)) (a : Addition α)
+    (s : ParseStep μ κ α) : Except (DataErr κ) (List (κ × α)) :=
+  let fields := decls.map (FieldDecl.resolveR s.run)
+  if s.dataFirst then parseDataDF s.inv fields a s.data else parseDataFF s.inv fields a s.data
+
+/-- the parses a program makes with one class, in order: the declaration is the only thing they share -/
+def runSteps {μ κ α : Type} [DecidableEq μ] [DecidableEq κ] (decls : List (FieldDecl μ κ α)) (a : Addition α)
+    (steps : List (ParseStep μ κ α)) : List (Except (DataErr κ) (List (κ × α))) :=
+  steps.map (parseStep decls a)
+
 /-! ### `*args: T` of a decorated function -/
 
 /-- `FunctionParser.parse_pos_type` (func.py:576-598). -/
@@ -556,6 +595,48 @@ def parseTy {α : Type} (W : World α) (o : Opts) : Ty α → Parser α
   | .seq k t => fun v => (parseSeqRule W k o.items (parseTy W o t) v).toOption
   | .map tk tv => fun v => (parseMapRule W o.keys o.values (parseTy W o tk) (some (parseTy W o tv)) v).toOption
   | .mapK tk => fun v => (parseMapRule W o.keys o.values (parseTy W o tk) none v).toOption
+
+/-! ### nested data classes -/
+
+/-- what a field declares besides its type -/
+structure FieldSpec (α : Type) where
+  name : α
+  required : Bool
+  default : Option α
+  onError : Option Policy
+  deps : List α := []
+
+/-- declared types with data classes.  Every class node carries its OWN `invalid_values`, lookup strategy
+and `addition`: a nested class is parsed in a context made from its own `__options__`
+(`parser.make_context(context=parent)`, cls.py:577-580), a list node the `invalid_items` of the options
+it is reached under.  Field names live in the value type (the keys of the mapping the input is). -/
+inductive DTy (α : Type) where
+  | leaf (p : Parser α)
+  | list (k : SeqKind) (items : Policy) (elem : DTy α)
+  | data (inv : Policy) (dataFirst : Bool) (a : Addition α) (fields : List (FieldSpec α × DTy α))
+
+mutual
+/-- the converter of a declared type; `strict = true` reads every policy and `on_error` as `throw` -/
+def DTy.parser {α : Type} [DecidableEq α] (W : World α) (strict : Bool) : DTy α → Parser α
+  | .leaf p => p
+  | .list k items t => fun v =>
+      (parseSeqRule W k (if strict then .throw else items) (DTy.parser W strict t) v).toOption
+  | .data inv df a fs => fun v =>
+      match W.asMap v with
+      | none => none
+      | some kvs =>
+        let pol := if strict then Policy.throw else inv
+        ((if df then parseDataDF pol (DTy.fieldsOf W strict fs) a kvs
+          else parseDataFF pol (DTy.fieldsOf W strict fs) a kvs).map W.mkMap).toOption
+/-- the fields of a class node, each with the converter of its declared type -/
+def DTy.fieldsOf {α : Type} [DecidableEq α] (W : World α) (strict : Bool) :
+    List (FieldSpec α × DTy α) → List (Field α α)
+  | [] => []
+  | (s, t) :: rest =>
+      { name := s.name, required := s.required, default := s.default,
+        onError := if strict then some .throw else s.onError, deps := s.deps,
+        parse := DTy.parser W strict t } :: DTy.fieldsOf W strict rest
+end
 
 /-! ### Specification — the property's own vocabulary, independent of the code above -/
 
